@@ -70,10 +70,11 @@ inductive Op
   | hb (n : Nat)
   | w (s : String)
   | meh (m : Meh)
+  | it (tag : String)      -- input_to ("it_fire", 0, tag): the next line of this user goes to the callback
   deriving Repr
 
 inductive Kind
-  | logon | input | cmd (v : String) | netdead | hb | co (tag : String) | reset
+  | logon | input | cmd (v : String) | netdead | hb | co (tag : String) | reset | it (tag : String)
   deriving DecidableEq, Repr
 
 inductive ConnB | ok | err | rej
@@ -89,6 +90,7 @@ inductive Ev
   | start | cycle (n : Nat) | exitLoop | exitShutdown
   | tConnect (k : Nat) | tLogon (o : Oid) | tInput (o : Oid) (s : String) | tCmd (o : Oid) (v : String)
   | tNetdead (o : Oid) | tHb (o : Oid) | tCo (o : Oid) (tag : String) | tReset (o : Oid)
+  | tIt (o : Oid) (tag : String) (line : String) | xIt (o : Oid) (tag : String)
   | xErr (who : String) | xCerr (o : Oid) | xDest (o t : Oid) | xCo (o : Oid) (tag : String) | xHb (o : Oid) (n : Nat)
   | meh (caught : Bool) (msg : String)
   | hbs (l : List String) | out (name : String) (text : String) | slots (n : Nat)
@@ -107,6 +109,7 @@ structure Conn where
   hasPI : Bool        -- HAS_PROCESS_INPUT
   closing : Bool      -- CLOSING
   out : String        -- everything add_message()d (canonical form)
+  inputTo : Option String := none   -- ip->input_to: the pending input_to() callback (its carry-over argument)
   deriving Repr
 
 structure CallOut where
@@ -385,6 +388,15 @@ def touch (w : W) : Oid → W
   | .obj k => { w with resetState := fun x => if x = k then false else w.resetState x }
   | _ => w
 
+def armInputTo (tag : String) (c : Conn) : Conn := if c.inputTo.isNone then { c with inputTo := some tag } else c
+def clearInputTo (c : Conn) : Conn := { c with inputTo := none }
+
+/-- set_call(): `ob->interactive == 0 || ob->interactive->input_to` -> 0, else the sentence is installed -/
+def setInputTo (w : W) (o : Oid) (tag : String) : W :=
+  match w.inter o with
+  | none => w
+  | some id => mapConn w id (armInputTo tag)
+
 /-- run a script in object `self`; stops at the first uncaught error or when `self` destructs itself -/
 def runOps (rh : HookFn) (self : Oid) : List Op → W → R
   | [], w => (w, false)
@@ -412,6 +424,10 @@ def runOps (rh : HookFn) (self : Oid) : List Op → W → R
       -- tell_object(): add_message for a user; for a plain object the catch_tell apply touches it (O_RESET_STATE off)
       runOps rh self rest (addOut (touch w self) self (s ++ "|"))
     | .meh m => runOps rh self rest { w with meh := m }
+    | .it tag =>
+      -- input_to(): set_call (command_giver, ...) - command_giver is the user itself in logon / process_input /
+      -- command / input_to callbacks; refused (returns 0, no error) when there is no connection or one is pending
+      runOps rh self rest (setInputTo (emit w (.xIt self tag)) self tag)
 
 def kindEv (o : Oid) : Kind → Ev
   | .logon => .tLogon o
@@ -421,6 +437,7 @@ def kindEv (o : Oid) : Kind → Ev
   | .hb => .tHb o
   | .co tag => .tCo o tag
   | .reset => .tReset o
+  | .it tag => .tIt o tag ""
 
 /-- run hook `k` of object `o` with nesting fuel -/
 def runHook (S : Scripts) : Nat → HookFn
@@ -612,6 +629,33 @@ def commandStage (rh : HookFn) (w : W) (cg : Oid) (line : String) : R :=
     let r := rh (emit w (.tCmd cg verb)) cg (.cmd verb)
     if r.2 then (r.1, true) else (addOut r.1 cg s!"ack_{verb}|", false)
 
+/-- `ip->input_to` -/
+def inputToOf (w : W) (id : Nat) : Option String := match findConn w id with | some c => c.inputTo | none => none
+
+/-- print_prompt (ip): the prompt is written only while no input_to() is pending; the master is not a user object,
+    nothing reaches the socket -/
+def promptStage (w : W) (cg : Oid) (id : Nat) : W :=
+  if cg = .master then w else if (inputToOf w id).isSome then w else addOut w cg ">_"
+
+/-- the ordinary path of process_user_command(): process_input, VALIDATE_IP, the command, VALIDATE_IP, the prompt -/
+def plainCommand (rh : HookFn) (w : W) (cg : Oid) (id : Nat) (line : String) : W × Bool × Bool :=
+  let hasPI := hasPIOf w id
+  let r1 := inputStage rh w cg line hasPI
+  if r1.2 then (r1.1, true, true) else
+  if hasPI && r1.1.inter cg ≠ some id then (r1.1, true, false) else      -- VALIDATE_IP
+  let r2 := commandStage rh r1.1 cg line
+  if r2.2 then (r2.1, true, true) else
+  if r2.1.inter cg ≠ some id then (r2.1, true, false) else               -- VALIDATE_IP
+  (promptStage (useConn r2.1 id) cg id, true, false)
+
+/-- call_function_interactive(): the sentence is freed and `ip->input_to` cleared BEFORE the callback runs (it may
+    call input_to() again); the line goes to the callback instead of process_input / the command parser -/
+def inputToCommand (rh : HookFn) (w : W) (cg : Oid) (id : Nat) (line : String) (tag : String) : W × Bool × Bool :=
+  let r := rh (emit (mapConn w id clearInputTo) (.tIt cg tag line)) cg (.it tag)
+  if r.2 then (r.1, true, true) else
+  if r.1.inter cg ≠ some id then (r.1, true, false) else                 -- VALIDATE_IP
+  (promptStage (useConn r.1 id) cg id, true, false)
+
 /-- process_user_command() once get_user_command() has picked a record: (state, processed, uncaught error) -/
 def serveCommand (rh : HookFn) (w : W) (c0 : Conn) : W × Bool × Bool :=
   let cg := c0.ob                               -- command_giver = ip->ob
@@ -621,15 +665,9 @@ def serveCommand (rh : HookFn) (w : W) (c0 : Conn) : W × Bool × Bool :=
   | none => (w, true, false)
   | some id =>
     let w := updateLoadAv (useConn w id)        -- clear_notify (ip); update_load_av ()
-    let hasPI := hasPIOf w id
-    let r1 := inputStage rh w cg line hasPI
-    if r1.2 then (r1.1, true, true) else
-    if hasPI && r1.1.inter cg ≠ some id then (r1.1, true, false) else      -- VALIDATE_IP
-    let r2 := commandStage rh r1.1 cg line
-    if r2.2 then (r2.1, true, true) else
-    if r2.1.inter cg ≠ some id then (r2.1, true, false) else               -- VALIDATE_IP
-    -- print_prompt (ip); tell_object (ip->ob, prompt): the master is not a user object, nothing reaches the socket
-    (if cg = .master then useConn r2.1 id else addOut (useConn r2.1 id) cg ">_", true, false)
+    match inputToOf w id with
+    | some tag => inputToCommand rh w cg id line tag
+    | none => plainCommand rh w cg id line
 
 /-- process_user_command(): returns (state, a command was processed, uncaught error) -/
 def processUserCommand (rh : HookFn) (w : W) : W × Bool × Bool :=
